@@ -167,6 +167,35 @@ def float_stream(rng, tier, p):
                 else:
                     tail = half - (1 << j)            # just below the tie
                 add(compose(M, p, s, tail))
+    # sticky information spread over SEVERAL whole digits below an exact tie (even and odd mantissa):
+    # the digits are drawn from a small special set and include equal pairs, complementary pairs
+    # (d, 2^64 - d) and (d, !d), so that a sticky bit accumulated with +, ^ or & instead of "any
+    # non-zero" collapses to zero (seed r6e: wrapping sum of the dropped pieces)
+    special = [1, 2, (1 << 63), (1 << 64) - 1, (1 << 64) - 2, (1 << 63) + 1, (1 << 63) - 1, 1 << 32, (1 << 64) - (1 << 32)]
+    for _ in range(60 if tier == "quick" else 600):
+        nlow = rng.choice([2, 2, 2, 3, 3, 4])
+        d0 = rng.choice(special) if rng.random() < 0.7 else rng.getrandbits(64) | 1
+        kind = rng.random()
+        if kind < 0.4:
+            low = [d0, ((1 << 64) - d0) & ((1 << 64) - 1)]
+        elif kind < 0.6:
+            low = [d0, d0]
+        elif kind < 0.75:
+            low = [d0, d0 ^ ((1 << 64) - 1)]
+        else:
+            low = [rng.choice(special) for _ in range(nlow)]
+        while len(low) < nlow:
+            low.insert(rng.randrange(len(low) + 1), 0)
+        rng.shuffle(low)
+        lowv = sum(d << (64 * i) for i, d in enumerate(low))
+        r = rng.choice([0, 0, 1, 5, 11, 32, 63])          # extra dropped bits in the straddling digit
+        s = 64 * len(low) + r + (64 - p if rng.random() < 0.5 else rng.randrange(1, 64))
+        half = 1 << (s - 1)
+        rem = rng.choice([0, 0, 1, (1 << r) - 1]) if r else 0
+        tail = half + ((rem % (1 << r)) << (64 * len(low)) if r else 0) + lowv
+        if tail >= (1 << s):
+            continue
+        add(compose(rand_mant(rng, p, rng.choice([0, 0, 1])), p, s, tail), hook_share=0.2)
     # all-ones patterns 2^k - 1, largest exact 2^k - 2^(k-p), the tie above it and its neighbours
     for k in list(range(1, 200, 3)) + [64, 65, 127, 128, 129, 191, 192, 193, 255, 256, 257, 320]:
         add((1 << k) - 1)
